@@ -378,6 +378,53 @@ Definition response_ok (o : obs) (resp : json) : bool :=
   | _ => false
   end.
 
+(* ------------------------------------------------------------------ exact shape: no extra key, no extra entry *)
+(* an object with exactly n members *)
+Definition sizeb (n : nat) (j : json) : bool := match j with JObj kv => Nat.eqb (length kv) n | _ => false end.
+
+Definition body_shape (inner : list (string * json)) : bool :=
+  match jget "num-unnum-hop" inner, jget "label-hop" inner, jget "transponder" inner with
+  | Some h, None, None => sizeb 2 h
+  | None, Some (JArr ls), None => forallb (sizeb 2) ls
+  | None, None, Some t => sizeb 2 t
+  | _, _, _ => false
+  end.
+Definition route_obj_shape (j : json) : bool :=
+  match j with
+  | JObj [(k, JObj inner)] => String.eqb k "path-route-object" && Nat.eqb (length inner) 2 && body_shape inner
+  | _ => false
+  end.
+Definition metrics_shape (j : option json) : bool :=
+  match j with Some (JArr pm) => Nat.eqb (length pm) 11 && forallb (sizeb 2) pm | _ => false end.
+Definition pp_shape (pp : json) : bool :=
+  match pp with
+  | JObj kv =>
+      metrics_shape (jget "path-metric" kv) &&
+      match jget "z-a-path-metric" kv with
+      | Some za => Nat.eqb (length kv) 3 && metrics_shape (Some za)
+      | None => Nat.eqb (length kv) 2
+      end &&
+      match jget "path-route-objects" kv with Some (JArr objs) => forallb route_obj_shape objs | _ => false end
+  | _ => false
+  end.
+Definition shape_ok (resp : json) : bool :=
+  match resp with
+  | JObj kv =>
+      Nat.eqb (length kv) 2 &&
+      match jget "path-properties" kv, jget "no-path" kv with
+      | Some pp, None => pp_shape pp
+      | None, Some (JObj np) =>
+          match jget "path-properties" np with
+          | Some pp => Nat.eqb (length np) 2 && pp_shape pp
+          | None => Nat.eqb (length np) 1
+          end
+      | _, _ => false
+      end
+  | _ => false
+  end.
+(* the strict validator: what was computed, and nothing else *)
+Definition response_exact (o : obs) (resp : json) : bool := response_ok o resp && shape_ok resp.
+
 (* ------------------------------------------------------------------ aggregation *)
 Inductive fld := FNone | FNum (q : Q) | FStr (s : string) | FList (l : list string) | FBool (b : bool).
 Fixpoint slist_eqb (a b : list string) : bool :=
